@@ -563,7 +563,7 @@ func checkLoops(c *core.Ctx, l *core.Ledger, dl []*ssa.Function, consuming map[*
 			}
 		}
 	}
-	l.Floor("LOOP", 8)
+	l.Floor("LOOP", 7)
 }
 
 func firstPos(b *ssa.BasicBlock) token.Pos {
